@@ -68,6 +68,7 @@ func runC20(c *Ctx) {
 		f := w.Facts(fn)
 		// R1: bounds of every index into the table
 		n := 0
+		c.BoundsFns[fn.String()] = true
 		for _, s := range w.BoundsObligations([]*ssa.Function{fn}, nil) {
 			if s.Kind != "index" {
 				continue
@@ -164,6 +165,32 @@ func runC20(c *Ctx) {
 			okInit = true
 		}
 		c.Check(isCall && calleeName(cv) == "sync.NewCond" && full, "R1.index", "constructor|every table entry initialised", w.Pos(st.Pos()), "conds[i] = sync.NewCond(...) for i over the whole table", "the condition table is not fully initialised with non-nil condition variables (a nil entry panics in Wait)")
+	}
+	// the table is written only while the server is being constructed: the writing function is a constructor
+	// (no receiver) or is called from constructors only
+	for _, a := range w.FieldAccesses(m.Server, m.fConds) {
+		if a.Kind != "write" && a.Kind != "addr" && a.Kind != "addrcall" {
+			continue
+		}
+		okCtor := a.Fn.Signature.Recv() == nil && a.Fn.Parent() == nil
+		if !okCtor {
+			okCtor = true
+			nCallers := 0
+			for _, fn := range w.RepoFuncs() {
+				for _, call := range callsIn(fn) {
+					if call.Common().StaticCallee() == a.Fn {
+						nCallers++
+						if fn.Signature.Recv() != nil || fn.Parent() != nil {
+							okCtor = false
+						}
+					}
+				}
+			}
+			if nCallers == 0 {
+				okCtor = false
+			}
+		}
+		c.Check(okCtor, "R1.index", "condition table written only during construction ("+shortFn(a.Fn)+")", w.Pos(a.Instr.Pos()), "constructor", "the condition variables are replaced after construction: clients already waiting on the old ones are never woken")
 	}
 	if !okInit {
 		c.Bad("R1.index", "constructor|every table entry initialised", "-", "no initialisation loop over the condition table was found")
